@@ -9,7 +9,7 @@ def decode(string):
   return string
 
 def validate_encoded(string):
-  if not re.match("^[!-)+-<>-~][!-~]*$", string):
+  if not re.match(r"^[!-)+-<>-~][!-~]*\Z", string):
     raise gfapy.FormatError(
       "{} is not a valid GFA1 path name\n".format(repr(string)) +
       "(it does not match the regular expression [!-)+-<>-~][!-~]*")
